@@ -70,7 +70,17 @@ func c08Repeated(n int) {
 	for round := 0; round < 2; round++ {
 		for _, nd := range nodes {
 			nd.behave = []int{bAccept, bRejectOther, bHang}[vnd.Choose("behaviour", 3)]
-			nd.latency, nd.cutOff = 0, false
+			nd.latency, nd.cutOff, nd.versionFails = 0, false, false
+			nd.client, nd.errText = "Lodestar/v1", "500: internal error"
+			if kind == kAttestations && nd.behave == bRejectOther {
+				// attestations: the rejection may be one Vouch tolerates from this client - provided the
+				// node says which client it is when asked during this submission (it may not, this time)
+				if vnd.Bool("rejection-is-a-tolerated-one") {
+					nd.behave = bRejectTolerated
+					nd.client, nd.errText = "Lighthouse/v5.1.0", "400: PriorAttestationKnown: already seen"
+				}
+				nd.versionFails = vnd.Bool("node-version.fails-this-time")
+			}
 			if nd.behave != bHang {
 				nd.latency = time.Duration(vnd.I64("latency"))
 				vnd.Assume(nd.latency >= 0 && nd.latency <= 120000)
@@ -99,8 +109,11 @@ func c08Repeated(n int) {
 		// let the nodes that are going to answer do so before the next submission
 		vnd.Quiesce()
 		okInTime := false
+		accepts := func(nd *c08KNode) bool {
+			return nd.behave == bAccept || (nd.behave == bRejectTolerated && !nd.versionFails)
+		}
 		for _, nd := range nodes {
-			if nd.behave == bAccept {
+			if accepts(nd) {
 				okInTime = vnd.Or(okInTime, nd.latency < timeout)
 			}
 		}
@@ -108,7 +121,7 @@ func c08Repeated(n int) {
 			vnd.Cover("C08.repeated.success")
 			anyOk := false
 			for _, nd := range nodes {
-				if nd.behave == bAccept {
+				if accepts(nd) {
 					anyOk = vnd.Or(anyOk, nd.latency <= elapsed)
 				}
 			}
